@@ -799,6 +799,12 @@ func protoCmd(args []string) error {
 					isoPlan[v] = l
 				}
 			}
+			// the leader schedule changed: tell the trace
+			var nl []int
+			for v := 1; v <= 400; v++ {
+				nl = append(nl, int(r.lr.GetLeader(hotstuff.View(v))))
+			}
+			o.emit(obj{"op": "relead", "leaders": nl})
 		} else if ri%3 == 2 && !ff {
 			// scenario library: "laggard" -- a calm run in which the leader-to-be of view w+1 is cut off from view w on for a few
 			// views and then reconnected, seeing the newest traffic first
